@@ -257,12 +257,13 @@ def check_frames(dlf, exp, i, opmap):
                 break
             for c, (cj, co) in enumerate(ef.channels):
                 if row.slots[c] != ef.slot_bytes[c][r]:
-                    dts = co.op['data']['dt']
-                    twod = len(co.op['data']['shape']) > 1
+                    dd = co.op.get('data') or exp.lfs[i]['ops'][co.op['data_from']]['data']
+                    dts = dd['dt']
+                    twod = len(dd['shape']) > 1
                     out.append(('fdata-slot-bytes', f"{dts[0]}{'2d' if twod else '1d'}"
                                                     f"{'+cast' if co.op.get('cast') else ''}",
-                                f"{where} row {r + 1} channel {co.name!r} ({dts}, shape {co.op['data']['shape']}, "
-                                f"layout {co.op['data'].get('layout', 'C')}): file {row.slots[c][:16].hex()} "
+                                f"{where} row {r + 1} channel {co.name!r} ({dts}, shape {dd['shape']}, "
+                                f"layout {dd.get('layout', 'C')}): file {row.slots[c][:16].hex()} "
                                 f"expected {ef.slot_bytes[c][r][:16].hex()}"))
                     done = True
                     break
